@@ -50,7 +50,8 @@ LEVEL_NOTE = (
     "one, its inner service is neither a wrapper nor remote diagnosis/configuration, or it is the plain SessionResponse before the client "
     "wrote its SessionAuthenticate; a genuine frame numbered below a rejected one is still accepted; the first frame written per TCP "
     "connection is the plain SessionRequest and everything else is a wrapper the reference verifies with strictly increasing numbers. "
-    "A registered consumer callback that raises on some frames is part of the histories: its exception is recorded, the freshness rule is judged unchanged (a replay of the frame it failed on must not be passed on). "
+    "After authentication, genuine fresh wrapped SessionStatus frames of every status code (0..5 and unknown) are followed, in the same TCP segment and later, by plain frames "
+    "including SessionResponse: none may reach a callback. A registered consumer callback that raises on some frames is part of the histories: its exception is recorded, the freshness rule is judged unchanged (a replay of the frame it failed on must not be passed on). "
     "Recorded, not judged: exceptions raised into the transport by a wrapper that arrives before the handshake (the statement is about "
     "what is passed on), contiguity 0,1,2.. of outgoing numbers, a genuine fresh frame dropped without a preceding rejected frame."
 )
@@ -75,7 +76,7 @@ AUTH_KINDS = ("plain", "forged-key", "forged-mac", "plain-session-response", "wr
 MAIN_KINDS = (
     "genuine", "genuine", "genuine", "gap", "late", "replay", "equal", "forged-key", "forged-mac", "forged-ct", "wrong-session",
     "wrong-session-field", "plain", "plain-session-response", "nested", "forbidden", "unsupported", "client-send", "client-send", "pair", "idle", "keepalive",
-    "raise-then-replay", "raise-then-replay",
+    "raise-then-replay", "raise-then-replay", "status-then-plain", "status-then-plain",
 )
 
 
@@ -282,14 +283,21 @@ def run_session_history(ctx, spec):
         """-> (raw, expected inner or None, why-not)."""
         nonlocal_last = model.last
         ready = auth_written()
-        if kind in ("genuine", "gap", "keepalive", "close", "timeout", "unauthenticated", "auth-success", "auth-failed"):
+        status_inner = None
+        if kind.startswith("status:"):
+            code = int(kind[7:])
+            if code > 5:
+                # authentic, but a status code xknx has no enum member for: never passed on
+                return srv.wrapped(ref.session_status(code), seq=srv.next_seq()), None, "unsupported-inner-service"
+            status_inner = ref.session_status(code)
+        if status_inner is not None or kind in ("genuine", "gap", "keepalive", "close", "timeout", "unauthenticated", "auth-success", "auth-failed"):
             if kind == "gap":
                 state["skipped"].append(srv.next_seq())
             inner = {
                 "keepalive": ref.session_status(STATUS_KEEPALIVE), "close": ref.session_status(STATUS_CLOSE), "timeout": ref.session_status(STATUS_TIMEOUT),
                 "unauthenticated": ref.session_status(STATUS_UNAUTHENTICATED), "auth-success": ref.session_status(STATUS_AUTHENTICATION_SUCCESS),
                 "auth-failed": ref.session_status(STATUS_AUTHENTICATION_FAILED),
-            }.get(kind) or inner_frame()
+            }.get(kind) or status_inner or inner_frame()
             seq = srv.next_seq()
             raw = srv.wrapped(inner, seq=seq, serial=r.choice((None, r.randbytes(6))), tag=r.choice((b"\x00\x00", r.randbytes(2))))
             if not ready:
@@ -460,6 +468,20 @@ def run_session_history(ctx, spec):
                     break
                 if kind == "client-send":
                     await client_send(session, True)
+                elif kind == "status-then-plain":
+                    # a genuine fresh wrapped SessionStatus of any code, with plain frames (SessionResponse included) right behind it
+                    # in the same TCP segment and later: after authentication no plain frame may reach a callback, whatever the status said
+                    code = rng.choice((0, 1, 2, 3, 4, 5, 2, 3, 6, 0xFF))
+                    chunk = [wrapped_event(f"status:{code}")]
+                    for _ in range(rng.randrange(1, 4)):
+                        chunk.append(plain_session_response() if rng.random() < 0.6 else plain_event())
+                    ctx.count(f"status_code_{code}_followed_by_plain_frames")
+                    judge(f"status-{code}-then-plain-same-segment", chunk)
+                    for _ in range(rng.randrange(0, 3)):
+                        await asyncio.sleep(rng.choice((0, 0, 0.001)))
+                        if srv.transport.closed:
+                            break
+                        judge(f"plain-after-status-{code}", [plain_session_response() if rng.random() < 0.6 else plain_event()])
                 elif kind == "raise-then-replay":
                     ev = [wrapped_event("genuine")]
                     state["raise_next"] = ev[0][1] is not None
@@ -652,6 +674,7 @@ def run(ctx):
     ctx.require(
         "histories_session", "histories_tunnel", "expected_accept", "callbacks_seen", "tx_wrappers", "tx_plain_session_request", "connects_completed",
         "tx_inner_0954", "tx_inner_0207", "tx_inner_0953", "tunnel_injected_plain_forged_replayed", "client_sends",
+        "status_code_2_followed_by_plain_frames", "status_code_3_followed_by_plain_frames", "status_code_5_followed_by_plain_frames", "status_code_4_followed_by_plain_frames",
         "consumer_callback_raised", "event_replayed-after-consumer-callback-raised", "histories_tx_counter_near_end", "tx_wrappers_in_last_6_numbers_of_48_bit_range", "client_send_refused_IPSecureError",
         "genuine_accepted_below_rejected_number", "event_replayed", "event_nested-wrapper", "event_wrong-key", "event_stale-sequence-number",
     )
